@@ -1,7 +1,7 @@
 (* ===== C14 : any input string is parsed or rejected with the library's parsing error ===== *)
 From Coq Require Import List NArith ZArith Bool Arith.
 Import ListNotations.
-Require Import GenOps Tok Classify Parser Parser2 Parser3 ParserTotal GenTie.
+Require Import GenOps Tok Classify Parser Parser2 Parser3 ParserTotal ParserDisabled GenTie.
 Open Scope N_scope.
 
 (* The parser model is a total function: termination is by construction (structural recursion / explicit fuel). *)
@@ -24,6 +24,18 @@ Theorem C14_plain_syntax_error_only_for_invalid_fragment : forall fixed intercep
   get_terms fixed intercept f av bad pn pv cl s = inr EPySyntax -> exists frag, In (frag, O) bad.
 Proof. exact get_terms_pysyntax. Qed.
 
+(* Operators disabled by the parser's feature flags are always rejected: whatever the token list, every operator of a returned AST
+   belongs to the table of these flags and is not disabled ... *)
+Theorem C14_disabled_operators_never_in_ast : forall fixed f ts a, to_ast fixed f ts = inl (Some a) -> no_dis (enabled f) a.
+Proof. exact disabled_never_in_ast. Qed.
+(* ... so with a feature switched off its construct cannot be parsed: no two-sided formula, no '|' parts, no nested stages *)
+Theorem C14_twosided_off : forall fixed f ts a, f_two f = false -> to_ast fixed f ts = inl (Some a) -> ~ uses STilde2 a.
+Proof. exact twosided_off_no_two_sided_formula. Qed.
+Theorem C14_multipart_off : forall fixed f ts a, f_parts f = false -> to_ast fixed f ts = inl (Some a) -> ~ uses SBar a.
+Proof. exact multipart_off_no_parts. Qed.
+Theorem C14_multistage_off : forall fixed f ts a, f_stage f = false -> to_ast fixed f ts = inl (Some a) -> ~ uses SMulti a.
+Proof. exact multistage_off_no_stages. Qed.
+
 (* the operator table the theorems speak about is the one /repo defines now *)
 Theorem C14_operator_table_is_the_code's : forall two parts stage,
   map raw_of (table {| f_two := two; f_parts := parts; f_stage := stage |}) = raw_table two parts stage.
@@ -43,6 +55,10 @@ Proof. eexists. vm_compute. reflexivity. Qed.
 Print Assumptions C14_ast_builder_total_and_clean.
 Print Assumptions C14_internal_errors_do_not_escape.
 Print Assumptions C14_plain_syntax_error_only_for_invalid_fragment.
+Print Assumptions C14_disabled_operators_never_in_ast.
+Print Assumptions C14_twosided_off.
+Print Assumptions C14_multipart_off.
+Print Assumptions C14_multistage_off.
 Print Assumptions C14_operator_table_is_the_code's.
 Print Assumptions C14_dot_without_intercept_refuted.
 Print Assumptions C14_example_parses.
